@@ -4,7 +4,7 @@
 # it through VERIF_REPO, so /repo itself is never touched (background runs use /repo) and different
 # properties can be tried side by side.  Remove the worktrees afterwards:
 #   git -C /repo worktree remove --force /tmp/wt_try_<id>
-P=$1; ID=$2; SEED=${3:-0}; WT=/tmp/wt_try_$ID
+P=$(readlink -f $1); ID=$2; SEED=${3:-0}; WT=/tmp/wt_try_$ID
 [ -d $WT ] || git -C /repo worktree add --detach $WT HEAD >/dev/null 2>&1 || exit 2
 git -C $WT checkout -q -- . ; git -C $WT apply $P || { echo "PATCH DOES NOT APPLY"; exit 2; }
 cp /verif/evidence/$ID.json /tmp/try_mut_wt.$ID.ev 2>/dev/null
